@@ -48,10 +48,21 @@ type Step struct {
 	Blocked [][2]interface{} `json:"blocked"`
 }
 
+// Fault names the one I/O operation that is made to fail in a run:
+// creating writer W's run file, encoding its I-th element, or syncing it.
+type Fault struct {
+	W    int    `json:"w"`
+	Site string `json:"site"`
+	I    int    `json:"i"`
+}
+
 type Schedule struct {
-	CS    int    `json:"cs"`
-	NPush int    `json:"npush"`
-	Sched []Step `json:"sched"`
+	CS       int    `json:"cs"`
+	NPush    int    `json:"npush"`
+	Conc     *bool  `json:"conc"`
+	Fault    *Fault `json:"fault"`
+	Reported bool   `json:"reported"` // the model's caller is told about the failure
+	Sched    []Step `json:"sched"`
 }
 
 func procName(p interface{}) string {
@@ -150,7 +161,8 @@ func RunSchedule(id int, s Schedule, timeout time.Duration) vt.Ev {
 	}
 	defer func() { morass.VerifStep = nil }()
 
-	m, err := morass.New(ival(0), "r", dir, s.CS, true)
+	conc := s.Conc == nil || *s.Conc
+	m, err := morass.New(ival(0), "r", dir, s.CS, conc)
 	if err != nil {
 		vt.Fatal("morass.New: %v", err)
 	}
@@ -179,11 +191,13 @@ func RunSchedule(id int, s Schedule, timeout time.Duration) vt.Ev {
 			v := (s.NPush-i)*KD + i // descending keys
 			es, _ := guard(func() error { return m.Push(ival(v)) })
 			results <- callRes{"push", es}
+			if es != "" {
+				return // the caller has been told: it stops using the sorter
+			}
 			api()
 		}
 		es, _ := guard(m.Finalise)
 		results <- callRes{"finalise", es}
-		api()
 	}()
 	g.procOf[<-callerReady] = "c0"
 
@@ -215,6 +229,16 @@ func RunSchedule(id int, s Schedule, timeout time.Duration) vt.Ev {
 	if err := g.await("c0", "api"); err != nil {
 		return fail(-1, err)
 	}
+	// fault injection: real failures, produced by closing the run file or hiding the directory
+	faultProc, encoded := "", map[string]int{}
+	fileOf := map[string]*os.File{}
+	if s.Fault != nil && s.Fault.W >= 0 {
+		faultProc = fmt.Sprintf("w%d", s.Fault.W)
+		if s.Fault.W == 0 {
+			faultProc = "c0"
+		}
+	}
+	hidden := dir + ".hidden"
 	for i, st := range s.Sched {
 		p := procName(st.P)
 		if err := g.drain(); err != nil {
@@ -228,12 +252,46 @@ func RunSchedule(id int, s Schedule, timeout time.Duration) vt.Ev {
 			a = g.pending[p]
 		}
 		// nobody may stand at a gate unless the model says so: collect who the model expects
+		restore := false
+		if p == faultProc {
+			f := s.Fault
+			switch {
+			case f.Site == "tempfile" && st.G == "write.recv":
+				if err := os.Rename(dir, hidden); err != nil {
+					vt.Fatal("hide dir: %v", err)
+				}
+				restore = true
+			case f.Site == "encode" && ((f.I == 1 && st.G == "write.registered") || (f.I > 1 && st.G == "write.encoded" && encoded[p] == f.I-1)),
+				f.Site == "sync" && st.G == "write.presync":
+				if fileOf[p] == nil {
+					vt.Fatal("no run file known for %s", p)
+				}
+				fileOf[p].Close()
+			}
+		}
 		delete(g.pending, p)
 		close(a.resume)
 		for _, ar := range st.Arr {
 			q := procName(ar[0])
 			if err := g.await(q, fmt.Sprint(ar[1])); err != nil {
+				if restore {
+					os.Rename(hidden, dir)
+				}
 				return fail(i, fmt.Errorf("after releasing %s from %q: %v", p, st.G, err))
+			}
+			switch fmt.Sprint(ar[1]) {
+			case "write.registered":
+				fs := m.VerifFiles()
+				if len(fs) > 0 {
+					fileOf[q] = fs[len(fs)-1]
+				}
+			case "write.encoded":
+				encoded[q]++
+			}
+		}
+		if restore {
+			if err := os.Rename(hidden, dir); err != nil {
+				vt.Fatal("restore dir: %v", err)
 			}
 		}
 		if len(st.Blocked) > 0 {
@@ -250,19 +308,35 @@ func RunSchedule(id int, s Schedule, timeout time.Duration) vt.Ev {
 			}
 		}
 	}
-	// Finalise has returned in the model; in the code the caller comes back to the api gate.
-	if err := g.await("c0", "api"); err != nil {
-		return fail(len(s.Sched), err)
+	// The model's caller is done: Finalise returned, or some call reported the failure.
+	select {
+	case <-callerDone:
+	case a := <-g.arrivals:
+		g.note(a)
+		return fail(len(s.Sched), fmt.Errorf("the caller goes on (%q) although the model's caller has finished", a.site))
+	case <-time.After(g.timeout):
+		return fail(len(s.Sched), fmt.Errorf("the caller did not finish within %v", g.timeout))
 	}
 	atomic.StoreInt32(&live, 0)
-	close(g.pending["c0"].resume)
 	close(results)
+	reported := ""
 	for r := range results {
 		if r.err != "" {
-			ev["ok"] = false
-			ev["mismatch"] = fmt.Sprintf("%s returned %q", r.what, r.err)
-			return ev
+			reported = fmt.Sprintf("%s returned %q", r.what, r.err)
 		}
+	}
+	ev["reported"] = reported
+	if s.Fault != nil && s.Fault.W >= 0 {
+		ev["fault"] = s.Fault
+	}
+	if (reported != "") != s.Reported {
+		ev["ok"] = false
+		ev["mismatch"] = fmt.Sprintf("error reported to the caller: %q; the model says reported=%v", reported, s.Reported)
+		return ev
+	}
+	if reported != "" {
+		ev["ok"] = true
+		return ev
 	}
 	// drain and compare with what was pushed
 	var got []int
